@@ -197,8 +197,8 @@ theorem never_bad_full_false : ¬ never_bad_full := by
   rw [e] at this
   exact absurd this (by decide)
 
-/-! what a process kill BETWEEN syncs can do (metadata older than the data) — stated on witnesses,
-the general positive statement is `kill_after_sync_preserves` -/
+/-! what a process kill BETWEEN syncs can do (metadata older than the data) — witnesses, replayed on the
+real package; the general statement over every history is `Nsq.Props.E9Kill.kill_after_any_history` -/
 
 /-- (a) records received since the last sync are delivered AGAIN after the kill (duplicates), in order,
 followed by everything still queued: put a, b (sync at count 2), receive a (not synced), kill →
